@@ -1242,7 +1242,10 @@ func (g *gen) anyNode(action string) *NodeSpec {
 			}
 		}
 		n.Visits[0].Post.Action = action
-		if n.hasFallback() && hasPhase(n, 1) && g.chance(0.4) {
+		if n.Kind == "func" && n.style(1) == 'R' && n.style(2) == 'R' && g.chance(0.25) {
+			// the exec function hands an error Result to post (nil error): still a successful run
+			n.Visits[0].Exec = []Outcome{{Fail: "errres"}}
+		} else if n.hasFallback() && hasPhase(n, 1) && g.chance(0.4) {
 			// the run succeeds through the fallback: every attempt fails, the fallback recovers
 			b := 1
 			if n.retryable() {
@@ -1473,6 +1476,17 @@ func genC19(prop, tier string, r *rand.Rand) *Scn {
 				vs.Items[i].Exec[0].Gate = "barrier"
 			}
 		}
+		if cfg.Conc >= 2 && cfg.Stop && r.IntN(3) == 0 {
+			// the error mode is unrelated to the concurrency: with no failing item a
+			// stop-mode batch runs its items as concurrently as a continue-mode one
+			for i := range vs.Items {
+				if vs.Items[i].Pay == "erritem" {
+					vs.Items[i].Pay = "int"
+				}
+				vs.Items[i].Exec = []Outcome{{Pay: g.pay(), Gate: "barrier"}}
+				vs.Items[i].Fb = nil
+			}
+		}
 	} else {
 		vs.Exec = g.execScript(cfg.Retries, false)
 	}
@@ -1493,6 +1507,10 @@ func genC19(prop, tier string, r *rand.Rand) *Scn {
 					// the configured concurrency must be usable: executions park until min(c, n) have started
 					v2.Items[i].Exec[0].Gate = "barrier"
 					v2.Items[i].Exec[0].SleepMs = 0
+				}
+				if cfg2.Conc >= 2 && cfg2.Stop && barrier2 {
+					v2.Items[i].Exec = []Outcome{{Pay: g.pay(), Gate: "barrier"}}
+					v2.Items[i].Fb = nil
 				}
 			}
 		} else {
@@ -1624,6 +1642,35 @@ func genC20(prop, tier string, r *rand.Rand) *Scn {
 }
 
 func genC10(prop, tier string, r *rand.Rand) *Scn {
+	sc := genC10base(prop, tier, r)
+	if r.IntN(6) == 0 {
+		// nested and flattened arrangement also agree on where a cancelled run stops
+		cancelInPlainCallback(sc, r)
+	}
+	return sc
+}
+
+// cancelInPlainCallback: the context is cancelled from inside a callback of a
+// non-batch node on the executed path (batch nodes may be members: one that
+// comes later is never started, one that came earlier has run undisturbed).
+func cancelInPlainCallback(sc *Scn, r *rand.Rand) {
+	sc.Runs = 1
+	var starts []MEv
+	for _, e := range startEvents(runModelUncancelled(sc).Runs[0]) {
+		if sc.Nodes[e.N].Kind != "batch" {
+			starts = append(starts, e)
+		}
+	}
+	for try := 0; try < 8 && len(starts) > 0; try++ {
+		if o := sc.outcomeAt(pick(r, starts)); o != nil {
+			o.Cancel = true
+			sc.Ctx.Kind = "cancel"
+			return
+		}
+	}
+}
+
+func genC10base(prop, tier string, r *rand.Rand) *Scn {
 	return bounded(func() *Scn {
 		g := newGen(prop, tier, r)
 		faultfree(g, r)
